@@ -154,7 +154,7 @@ theorem foldBlocks_spec (f : Nat) :
     ∀ (ops : List Op) (acc : List (Key × List (Pts Int))), KeysAsc acc → (∀ e ∈ acc, e.2 ≠ []) →
       KeysAsc (foldBlocks f acc ops) ∧ (∀ e ∈ foldBlocks f acc ops, e.2 ≠ []) ∧
       (∀ k, getK (foldBlocks f acc ops) k = getK acc k ++ ptsOf f k ops)
-  | [], acc, hs, hne => by simp [foldBlocks, ptsOf, hs, hne]
+  | [], acc, hs, hne => ⟨hs, hne, fun k => by simp [foldBlocks, ptsOf]⟩
   | op :: ops, acc, hs, hne => by
     unfold foldBlocks
     simp only [List.foldl_cons]
@@ -208,16 +208,610 @@ def NoDel (ops : List Op) : Prop := ∀ op ∈ ops, ∀ f keys lo hi, op ≠ Op.
 def mkB (b : Pts Int) : Block Int :=
   { minTime := ptsFirst b, maxTime := ptsLast b, pts := b, tombstones := [] }
 
+theorem find_index_mk (blocks : List (Key × List (Pts Int))) (k : Key) (hk : ∃ kb ∈ blocks, kb.1 = k) :
+    (blocks.map fun kb => (kb.1, (some [] : Option (List (Int × Int))))).find? (fun e => decide (e.1 = k)) =
+      some (k, some []) := by
+  induction blocks with
+  | nil => obtain ⟨kb, h, _⟩ := hk; simp at h
+  | cons x rest ih =>
+    simp only [List.map_cons, List.find?_cons]
+    by_cases hx : x.1 = k
+    · simp [hx]
+    · simp only [hx, decide_false]
+      apply ih
+      obtain ⟨kb, h, h2⟩ := hk
+      rcases List.mem_cons.mp h with rfl | h3
+      · exact absurd h2 hx
+      · exact ⟨kb, h3, h2⟩
+
 theorem runs_mkRFile (blocks : List (Key × List (Pts Int))) :
     (mkRFile blocks).runs = blocks.map fun kb => (kb.1, kb.2.map mkB) := by
   unfold RFile.runs mkRFile
   simp only
-  induction blocks with
+  have : ∀ (sub : List (Key × List (Pts Int))), (∀ kb ∈ sub, kb ∈ blocks) →
+      sub.filterMap (fun x => match x with
+        | (k, bs) => match (blocks.map fun kb => (kb.1, (some [] : Option (List (Int × Int))))).find? (fun e => decide (e.1 = k)) with
+          | some (_, some tombs) => some (k, bs.map fun b =>
+              ({ minTime := ptsFirst b, maxTime := ptsLast b, pts := b, tombstones := tombs } : Block Int))
+          | _ => none) = sub.map fun kb => (kb.1, kb.2.map mkB) := by
+    intro sub
+    induction sub with
+    | nil => intro _; rfl
+    | cons kb rest ih =>
+      intro hsub
+      obtain ⟨k, bs⟩ := kb
+      have hf := find_index_mk blocks k ⟨(k, bs), hsub _ (by simp), rfl⟩
+      simp only [List.filterMap_cons, hf, List.map_cons]
+      rw [ih (fun x hx => hsub x (List.mem_cons_of_mem _ hx))]
+      rfl
+  exact this blocks (fun _ h => h)
+
+
+/-! ### validity of the accepted operations -/
+
+/-- `ops` (oldest first) were accepted one after the other by `step` starting from `pre` -/
+def ValidFrom : List Op → List Op → Prop
+  | _, [] => True
+  | pre, op :: rest =>
+    (match op with
+      | Op.blk f k pts => blkOK pre.reverse f k pts = true
+      | _ => True) ∧ ValidFrom (pre ++ [op]) rest
+
+/-- blocks of one (file, key): non-empty, ascending, storable times, each starting after the previous one ended -/
+def ChainOK : List (Pts Int) → Prop
+  | [] => True
+  | b :: rest => b ≠ [] ∧ Asc b ∧ (∀ p ∈ b, InR p.1) ∧ (∀ c ∈ rest, ∀ p ∈ b, ∀ q ∈ c, p.1 < q.1) ∧ ChainOK rest
+
+theorem strictAsc_iff (l : Pts Int) : strictAsc l = true ↔ Asc l := by
+  induction l with
+  | nil => simp [strictAsc, asc_nil]
+  | cons p l ih =>
+    cases l with
+    | nil => simp [strictAsc, Asc]
+    | cons q rest =>
+      simp only [strictAsc, Bool.and_eq_true, decide_eq_true_eq, ih]
+      rw [asc_cons (p := p)]
+      constructor
+      · rintro ⟨h1, h2⟩
+        refine ⟨?_, h2⟩
+        intro x hx
+        rcases List.mem_cons.mp hx with rfl | hx2
+        · exact h1
+        · have := (asc_cons.mp h2).1 x hx2; omega
+      · rintro ⟨h1, h2⟩
+        exact ⟨h1 q (by simp), h2⟩
+
+theorem timeOK_inR {t : Int} (h : timeOK t = true) : InR t := by
+  unfold timeOK at h
+  rcases (Bool.and_eq_true _ _).mp h with ⟨h1, h2⟩
+  have h1' := of_decide_eq_true h1
+  have h2' := of_decide_eq_true h2
+  unfold minInt64 at h1'
+  unfold maxInt64 at h2'
+  unfold InR minInt64 maxInt64
+  omega
+
+theorem lastTime_newest (f : Nat) (k : Key) : ∀ (s : List Op),
+    lastTime f k s = ((ptsOf f k s).head?).bind (fun b => b.getLast?.map (·.1))
+  | [] => rfl
+  | op :: s => by
+    cases op with
+    | blk f' k' pts =>
+      by_cases h : f' = f ∧ k' = k
+      · simp [lastTime, ptsOf, h]
+      · have ih := lastTime_newest f k s
+        simp only [lastTime, h, if_false, ih, ptsOf, List.filterMap_cons]
+    | del _ _ _ _ => simpa [lastTime, ptsOf] using lastTime_newest f k s
+    | cw _ _ => simpa [lastTime, ptsOf] using lastTime_newest f k s
+    | compact _ _ _ => simpa [lastTime, ptsOf] using lastTime_newest f k s
+    | snap _ => simpa [lastTime, ptsOf] using lastTime_newest f k s
+
+/-- `lastTime` finds the last timestamp of the newest block of (file, key) -/
+theorem lastTime_spec (f : Nat) (k : Key) (pre : List Op) :
+    lastTime f k pre.reverse = ((ptsOf f k pre).getLast?).bind (fun b => b.getLast?.map (·.1)) := by
+  rw [lastTime_newest]
+  have : ptsOf f k pre.reverse = (ptsOf f k pre).reverse := by simp [ptsOf, List.filterMap_reverse]
+  rw [this, List.head?_reverse]
+
+theorem chain_mem_ne : ∀ (L : List (Pts Int)), ChainOK L → ∀ c ∈ L, c ≠ []
+  | [], _, _, h => by simp at h
+  | b :: L, hc, c, hm => by
+    rcases List.mem_cons.mp hm with rfl | h2
+    · exact hc.1
+    · exact chain_mem_ne L hc.2.2.2.2 c h2
+
+/-- appending a block that starts after everything before keeps the chain -/
+theorem chainOK_snoc : ∀ (L : List (Pts Int)) (b : Pts Int), ChainOK L → b ≠ [] → Asc b → (∀ p ∈ b, InR p.1) →
+    (∀ c ∈ L, ∀ p ∈ c, ∀ q ∈ b, p.1 < q.1) → ChainOK (L ++ [b])
+  | [], b, _, h1, h2, h3, _ => ⟨h1, h2, h3, by simp, trivial⟩
+  | c :: L, b, hc, h1, h2, h3, h4 => by
+    obtain ⟨c1, c2, c3, c4, c5⟩ := hc
+    refine ⟨c1, c2, c3, ?_, chainOK_snoc L b c5 h1 h2 h3 (fun x hx => h4 x (List.mem_cons_of_mem _ hx))⟩
+    intro x hx p hp q hq
+    rcases List.mem_append.mp hx with h | h
+    · exact c4 x h p hp q hq
+    · simp at h; subst h; exact h4 c (by simp) p hp q hq
+
+/-- in a chain, everything lies before the last timestamp of the last block, or in it -/
+theorem chain_le_last : ∀ (L : List (Pts Int)), ChainOK L → ∀ lb, L.getLast? = some lb → ∀ z, lb.getLast? = some z →
+    ∀ c ∈ L, ∀ p ∈ c, p.1 ≤ z.1
+  | [], _, lb, h, _, _, _, _, _, _ => by simp at h
+  | [b], hc, lb, h, z, hz, c, hcm, p, hp => by
+    simp at h; subst h
+    simp at hcm; subst hcm
+    exact asc_le_last hc.2.1 hz p hp
+  | b :: b2 :: L, hc, lb, h, z, hz, c, hcm, p, hp => by
+    have h' : (b2 :: L).getLast? = some lb := by simpa [List.getLast?_cons_cons] using h
+    rcases List.mem_cons.mp hcm with rfl | hcm2
+    · have hlbm : lb ∈ b2 :: L := List.mem_of_getLast? h'
+      have := hc.2.2.2.1 lb hlbm p hp z (List.mem_of_getLast? hz)
+      omega
+    · exact chain_le_last (b2 :: L) hc.2.2.2.2 lb h' z hz c hcm2 p hp
+
+theorem valid_chain (f : Nat) (k : Key) : ∀ (ops pre : List Op), ValidFrom pre ops → ChainOK (ptsOf f k pre) →
+    ChainOK (ptsOf f k (pre ++ ops))
+  | [], pre, _, hc => by simpa using hc
+  | op :: rest, pre, hv, hc => by
+    obtain ⟨h1, h2⟩ := hv
+    have : pre ++ op :: rest = (pre ++ [op]) ++ rest := by simp
+    rw [this]
+    apply valid_chain f k rest (pre ++ [op]) h2
+    rw [ptsOf_append]
+    cases op with
+    | blk f' k' pts =>
+      by_cases h : f' = f ∧ k' = k
+      · obtain ⟨rfl, rfl⟩ := h
+        have e : ptsOf f' k' [Op.blk f' k' pts] = [pts] := by simp [ptsOf]
+        rw [e]
+        simp only [blkOK, Bool.and_eq_true, decide_eq_true_eq] at h1
+        obtain ⟨⟨⟨⟨⟨_, _⟩, hlen⟩, hasc⟩, hpts⟩, hlast⟩ := h1
+        have hne : pts ≠ [] := List.length_pos_iff.mp hlen
+        have hA : Asc pts := (strictAsc_iff pts).mp hasc
+        have hR : ∀ p ∈ pts, InR p.1 := by
+          intro p hp
+          simp only [ptsOK, List.all_eq_true, Bool.and_eq_true] at hpts
+          exact timeOK_inR (hpts p hp).1
+        apply chainOK_snoc _ _ hc hne hA hR
+        intro c hcm p hp q hq
+        rw [lastTime_spec] at hlast
+        cases hgl : (ptsOf f' k' pre).getLast? with
+        | none =>
+          have : ptsOf f' k' pre = [] := List.getLast?_eq_none_iff.mp hgl
+          rw [this] at hcm; simp at hcm
+        | some lb =>
+          have hlbne : lb ≠ [] := chain_mem_ne _ hc lb (List.mem_of_getLast? hgl)
+          obtain ⟨z, hz⟩ : ∃ z, lb.getLast? = some z := ⟨_, List.getLast?_eq_some_getLast hlbne⟩
+          obtain ⟨a, ha⟩ : ∃ a, pts.head? = some a := by
+            cases pts with
+            | nil => exact absurd rfl hne
+            | cons x xs => exact ⟨x, rfl⟩
+          simp only [hgl, Option.bind_some, hz, Option.map_some, ha, decide_eq_true_eq] at hlast
+          have h1 := chain_le_last _ hc lb hgl z hz c hcm p hp
+          have h2 := asc_head_le hA ha q hq
+          omega
+      · have e : ptsOf f k [Op.blk f' k' pts] = [] := by simp [ptsOf, h]
+        rw [e, List.append_nil]; exact hc
+    | del _ _ _ _ => simpa [ptsOf] using hc
+    | cw _ _ => simpa [ptsOf] using hc
+    | compact _ _ _ => simpa [ptsOf] using hc
+    | snap _ => simpa [ptsOf] using hc
+
+theorem valid_blk_facts : ∀ (ops pre : List Op), ValidFrom pre ops → ∀ f k pts, Op.blk f k pts ∈ ops →
+    f < 64 ∧ k ≠ []
+  | [], _, _, _, _, _, h => by simp at h
+  | op :: rest, pre, hv, f, k, pts, h => by
+    rcases List.mem_cons.mp h with rfl | h2
+    · have := hv.1
+      simp only [blkOK, Bool.and_eq_true, decide_eq_true_eq, keyOK] at this
+      obtain ⟨⟨⟨⟨⟨hf, ⟨⟨hk, _⟩, _⟩⟩, _⟩, _⟩, _⟩, _⟩ := this
+      exact ⟨hf, List.length_pos_iff.mp hk⟩
+    · exact valid_blk_facts rest _ hv.2 f k pts h2
+
+
+/-! ### the content of the files, as the statement sees it -/
+
+/-- the value a chain of blocks holds at `t` (later block first) -/
+def lastAt : List (Pts Int) → Int → Option Int
+  | [], _ => none
+  | b :: L, t => (lastAt L t).or (lookup b t)
+
+theorem lastAt_some_mem : ∀ {L : List (Pts Int)} {t v : Int}, lastAt L t = some v → ∃ b ∈ L, (t, v) ∈ b
+  | [], _, _, h => by simp [lastAt] at h
+  | b :: L, t, v, h => by
+    simp only [lastAt] at h
+    cases hl : lastAt L t with
+    | some w =>
+      rw [hl] at h; simp at h; subst h
+      obtain ⟨c, hc, hc'⟩ := lastAt_some_mem hl
+      exact ⟨c, List.mem_cons_of_mem _ hc, hc'⟩
+    | none =>
+      rw [hl] at h; simp at h
+      exact ⟨b, by simp, lookup_some_mem h⟩
+
+theorem lastAt_of_mem : ∀ {L : List (Pts Int)}, ChainOK L → ∀ {b : Pts Int} {t v : Int}, b ∈ L → (t, v) ∈ b →
+    lastAt L t = some v
+  | [], _, _, _, _, h, _ => by simp at h
+  | c :: L, hc, b, t, v, hb, hm => by
+    simp only [lastAt]
+    rcases List.mem_cons.mp hb with rfl | hb2
+    · have : lastAt L t = none := by
+        cases hl : lastAt L t with
+        | none => rfl
+        | some w =>
+          obtain ⟨d, hd, hd'⟩ := lastAt_some_mem hl
+          have := hc.2.2.2.1 d hd (t, v) hm (t, w) hd'
+          simp at this
+      rw [this]
+      simpa using lookup_of_mem_asc hc.2.1 hm
+    · rw [lastAt_of_mem hc.2.2.2.2 hb2 hm]; rfl
+
+theorem live_mkB {b : Pts Int} (h : ∀ p ∈ b, InR p.1) : live (mkB b) = b := by
+  unfold live unread mkB
+  simp only [applyTombs, List.foldl_nil, vExclude]
+  apply List.filter_eq_self.mpr
+  intro p hp
+  have := h p hp
+  unfold InR at this
+  simp only [Bool.not_eq_true', Bool.and_eq_false_iff, decide_eq_false_iff_not]
+  left; omega
+
+theorem restAt_mkB : ∀ (L : List (Pts Int)), ChainOK L → ∀ t, restAt (L.map mkB) t = lastAt L t
+  | [], _, _ => rfl
+  | b :: L, hc, t => by
+    simp only [List.map_cons, restAt, lastAt, restAt_mkB L hc.2.2.2.2 t, live_mkB hc.2.2.1]
+
+theorem fresh_mkB {b : Pts Int} (hne : b ≠ []) (hasc : Asc b) (hin : ∀ p ∈ b, InR p.1) : Fresh (mkB b) := by
+  obtain ⟨a, z, ha, hz⟩ := head_getLast_of_ne hne
+  refine ⟨⟨hasc, ⟨a, ha, ?_⟩, ⟨z, hz, ?_⟩, hin⟩, rfl, rfl⟩
+  · simp [mkB, ptsFirst, ha]
+  · simp [mkB, ptsLast, hz]
+
+theorem chain_mem_facts : ∀ (L : List (Pts Int)), ChainOK L → ∀ c ∈ L, c ≠ [] ∧ Asc c ∧ ∀ p ∈ c, InR p.1
+  | [], _, _, h => by simp at h
+  | b :: L, hc, c, hm => by
+    rcases List.mem_cons.mp hm with rfl | h2
+    · exact ⟨hc.1, hc.2.1, hc.2.2.1⟩
+    · exact chain_mem_facts L hc.2.2.2.2 c h2
+
+/-! ### the files of a case without deletes -/
+
+theorem mem_fileIds {ops : List Op} {f : Nat} :
+    f ∈ fileIds ops ↔ f < 64 ∧ ∃ k pts, Op.blk f k pts ∈ ops := by
+  simp only [fileIds, List.mem_filter, List.mem_range, List.any_eq_true]
+  constructor
+  · rintro ⟨h1, op, hop, h2⟩
+    refine ⟨h1, ?_⟩
+    cases op with
+    | blk f' k pts => simp only [decide_eq_true_eq] at h2; subst h2; exact ⟨k, pts, hop⟩
+    | _ => simp at h2
+  · rintro ⟨h1, k, pts, h2⟩
+    exact ⟨h1, _, h2, by simp⟩
+
+theorem fileIds_asc (ops : List Op) : (fileIds ops).Pairwise (· < ·) :=
+  List.Pairwise.sublist List.filter_sublist List.pairwise_lt_range
+
+theorem readers_noDel (ops : List Op) (h : NoDel ops) :
+    readers ops = (fileIds ops).map fun f => mkRFile (fileBlocksL f ops) := by
+  unfold readers
+  apply List.map_congr_left
+  intro f _
+  generalize mkRFile (fileBlocksL f ops) = rf0
+  have : ∀ (l : List Op) (rf : RFile), (∀ op ∈ l, ∀ f keys lo hi, op ≠ Op.del f keys lo hi) →
+      l.foldl (fun rf op => match op with
+        | Op.del f' keys lo hi => if f' = f then rf.deleteRange keys lo hi else rf
+        | _ => rf) rf = rf := by
+    intro l
+    induction l with
+    | nil => intro rf _; rfl
+    | cons op l ih =>
+      intro rf hl
+      simp only [List.foldl_cons]
+      cases op with
+      | del f' keys lo hi => exact absurd rfl (hl _ (by simp) f' keys lo hi)
+      | _ => exact ih rf (fun o ho => hl o (List.mem_cons_of_mem _ ho))
+  exact this ops rf0 h
+
+/-- the runs the compaction reads -/
+def runsOf' (ops : List Op) : List (FileRuns Int) := (readers ops).map RFile.runs
+
+theorem runs_noDel (ops : List Op) (h : NoDel ops) :
+    runsOf' ops = (fileIds ops).map fun f => (fileBlocksL f ops).map fun kb => (kb.1, kb.2.map mkB) := by
+  unfold runsOf'
+  rw [readers_noDel ops h, List.map_map]
+  apply List.map_congr_left
+  intro f _
+  simp [runs_mkRFile]
+
+theorem flatMap_congr' {α β : Type} {f g : α → List β} : ∀ (l : List α), (∀ x ∈ l, f x = g x) →
+    l.flatMap f = l.flatMap g
+  | [], _ => rfl
+  | x :: xs, h => by
+    simp only [List.flatMap_cons, h x (by simp), flatMap_congr' xs (fun y hy => h y (List.mem_cons_of_mem _ hy))]
+
+theorem blocksFor_noDel (ops : List Op) (h : NoDel ops) (k : Key) :
+    blocksFor (runsOf' ops) k = (fileIds ops).flatMap fun f => (ptsOf f k ops).map mkB := by
+  rw [runs_noDel ops h]
+  unfold blocksFor
+  rw [List.flatMap_map]
+  apply flatMap_congr'
+  intro f _
+  have hs := (foldBlocks_spec f ops [] List.Pairwise.nil (by simp)).2.2 k
+  rw [← fileBlocksL_eq] at hs
+  simp only [getK, List.filter_nil, List.flatMap_nil, List.nil_append] at hs
+  rw [← hs]
+  generalize fileBlocksL f ops = m
+  induction m with
   | nil => rfl
-  | cons kb rest ih =>
-    obtain ⟨k, bs⟩ := kb
-    simp only [List.map_cons, List.filterMap_cons, List.find?_cons, decide_true]
-    simp only [List.filterMap_eq_map_iff_forall_eq_some] at ih ⊢
-    sorry
+  | cons e m ih =>
+    by_cases he : e.1 = k
+    · simp [List.filter_cons, he, ih]
+    · simp [List.filter_cons, he, ih]
+
+theorem mem_ptsOf {f : Nat} {k : Key} {ops : List Op} {pts : Pts Int} :
+    pts ∈ ptsOf f k ops ↔ Op.blk f k pts ∈ ops := by
+  simp only [ptsOf, List.mem_filterMap]
+  constructor
+  · rintro ⟨op, hop, h⟩
+    cases op with
+    | blk f' k' p =>
+      by_cases hc : f' = f ∧ k' = k
+      · simp only [hc, and_self, if_true, Option.some.injEq] at h
+        obtain ⟨rfl, rfl⟩ := hc
+        subst h; exact hop
+      · simp [hc] at h
+    | _ => simp at h
+  · intro h
+    exact ⟨_, h, by simp⟩
+
+/-! ### newest file wins, both ways -/
+
+theorem newest_spec : ∀ (C : List (Nat × Int)),
+    (newest C = none ↔ C = []) ∧ (∀ c, newest C = some c → c ∈ C ∧ ∀ d ∈ C, d.1 ≤ c.1)
+  | [] => by simp [newest]
+  | c :: cs => by
+    obtain ⟨i1, i2⟩ := newest_spec cs
+    constructor
+    · simp only [newest]
+      cases hn : newest cs with
+      | none => simp
+      | some d => simp only []; split <;> simp
+    · intro x hx
+      simp only [newest] at hx
+      cases hn : newest cs with
+      | none =>
+        rw [hn] at hx
+        simp only [Option.some.injEq] at hx
+        subst hx
+        have : cs = [] := i1.mp hn
+        subst this
+        exact ⟨by simp, by simp⟩
+      | some d =>
+        rw [hn] at hx
+        simp only at hx
+        obtain ⟨j1, j2⟩ := i2 d hn
+        by_cases hgt : c.1 > d.1
+        · rw [if_pos hgt] at hx
+          simp only [Option.some.injEq] at hx
+          subst hx
+          refine ⟨by simp, ?_⟩
+          intro e he
+          rcases List.mem_cons.mp he with rfl | he2
+          · exact Nat.le_refl _
+          · have := j2 e he2; omega
+        · rw [if_neg hgt] at hx
+          simp only [Option.some.injEq] at hx
+          subst hx
+          refine ⟨List.mem_cons_of_mem _ j1, ?_⟩
+          intro e he
+          rcases List.mem_cons.mp he with rfl | he2
+          · omega
+          · exact j2 e he2
+
+/-- the last file of `ids` that holds a value wins -/
+def lastHit (hit : Nat → Option Int) : List Nat → Option Int
+  | [] => none
+  | f :: fs => (lastHit hit fs).or (hit f)
+
+theorem lastHit_spec (hit : Nat → Option Int) : ∀ (ids : List Nat), ids.Pairwise (· < ·) →
+    (lastHit hit ids = none ↔ ∀ f ∈ ids, hit f = none) ∧
+    (∀ v, lastHit hit ids = some v → ∃ f ∈ ids, hit f = some v ∧ ∀ f' ∈ ids, f < f' → hit f' = none)
+  | [], _ => by simp [lastHit]
+  | f :: fs, hp => by
+    have hp' := List.pairwise_cons.mp hp
+    obtain ⟨i1, i2⟩ := lastHit_spec hit fs hp'.2
+    constructor
+    · simp only [lastHit, Option.or_eq_none_iff, i1, List.mem_cons, forall_eq_or_imp]
+      exact And.comm
+    · intro v hv
+      simp only [lastHit] at hv
+      cases hl : lastHit hit fs with
+      | some w =>
+        rw [hl] at hv; simp at hv; subst hv
+        obtain ⟨g, hg, hg1, hg2⟩ := i2 w hl
+        refine ⟨g, List.mem_cons_of_mem _ hg, hg1, ?_⟩
+        intro f' hf' hlt
+        rcases List.mem_cons.mp hf' with rfl | hf2
+        · have := hp'.1 g hg; omega
+        · exact hg2 f' hf2 hlt
+      | none =>
+        rw [hl] at hv; simp at hv
+        refine ⟨f, by simp, hv, ?_⟩
+        intro f' hf' hlt
+        rcases List.mem_cons.mp hf' with rfl | hf2
+        · omega
+        · exact (i1.mp hl) f' hf2
+
+theorem restAt_flatMap_files (ops : List Op) (k : Key) (t : Int)
+    (hch : ∀ f, ChainOK (ptsOf f k ops)) : ∀ (ids : List Nat),
+    restAt (ids.flatMap fun f => (ptsOf f k ops).map mkB) t = lastHit (fun f => lastAt (ptsOf f k ops) t) ids
+  | [] => rfl
+  | f :: fs => by
+    simp only [List.flatMap_cons, restAt_append, lastHit, restAt_flatMap_files ops k t hch fs,
+      restAt_mkB _ (hch f)]
+
+theorem mem_candidates_noDel {ops : List Op} (h : NoDel ops) {k : Key} {t : Int} {f : Nat} {v : Int} :
+    (f, v) ∈ candidates ops k t ↔ ∃ pts, Op.blk f k pts ∈ ops ∧ (t, v) ∈ pts := by
+  have hdel : ∀ f, deleted ops f k t = false := by
+    intro f
+    simp only [deleted, List.any_eq_false]
+    intro op hop
+    cases op with
+    | del f' keys lo hi => exact absurd rfl (h _ hop f' keys lo hi)
+    | _ => simp
+  simp only [candidates, List.mem_flatMap]
+  constructor
+  · rintro ⟨op, hop, hm⟩
+    cases op with
+    | blk f' k' pts =>
+      simp only [hdel, Bool.not_false, Bool.and_true] at hm
+      by_cases hk : k' = k
+      · subst hk
+        simp only [beq_self_eq_true, if_true, List.mem_map, List.mem_filter, beq_iff_eq] at hm
+        obtain ⟨p, ⟨hp, hpt⟩, hpe⟩ := hm
+        simp only [Prod.mk.injEq] at hpe
+        obtain ⟨rfl, rfl⟩ := hpe
+        refine ⟨pts, hop, ?_⟩
+        rw [← hpt]; exact hp
+      · have : (k' == k) = false := by simp [hk]
+        simp [this] at hm
+    | _ => simp at hm
+  · rintro ⟨pts, hop, hm⟩
+    refine ⟨_, hop, ?_⟩
+    simp only [hdel, Bool.not_false, Bool.and_true, beq_self_eq_true, if_true, List.mem_map, List.mem_filter,
+      beq_iff_eq]
+    exact ⟨(t, v), ⟨hm, rfl⟩, rfl⟩
+
+/-- **newest file wins**: the content the iterator theorem speaks about is the content the
+    statement speaks about -/
+theorem content_noDel (ops : List Op) (hv : ValidFrom [] ops) (hnd : NoDel ops) (k : Key) (t : Int) :
+    restAt (blocksFor (runsOf' ops) k) t = expectedAt ops k t := by
+  have hch : ∀ f, ChainOK (ptsOf f k ops) := fun f => by
+    have := valid_chain f k ops [] hv trivial
+    simpa using this
+  rw [blocksFor_noDel ops hnd, restAt_flatMap_files ops k t hch]
+  unfold expectedAt
+  obtain ⟨n1, n2⟩ := newest_spec (candidates ops k t)
+  obtain ⟨l1, l2⟩ := lastHit_spec (fun f => lastAt (ptsOf f k ops) t) (fileIds ops) (fileIds_asc ops)
+  -- membership in the candidates = a hit in that file
+  have hmem : ∀ f v, (f, v) ∈ candidates ops k t ↔ (f ∈ fileIds ops ∧ lastAt (ptsOf f k ops) t = some v) := by
+    intro f v
+    rw [mem_candidates_noDel hnd]
+    constructor
+    · rintro ⟨pts, hop, hm⟩
+      refine ⟨mem_fileIds.mpr ⟨(valid_blk_facts ops [] hv f k pts hop).1, k, pts, hop⟩, ?_⟩
+      exact lastAt_of_mem (hch f) (mem_ptsOf.mpr hop) hm
+    · rintro ⟨_, hl⟩
+      obtain ⟨b, hb, hb'⟩ := lastAt_some_mem hl
+      exact ⟨b, mem_ptsOf.mp hb, hb'⟩
+  cases hn : newest (candidates ops k t) with
+  | none =>
+    have hC := n1.mp hn
+    have : lastHit (fun f => lastAt (ptsOf f k ops) t) (fileIds ops) = none := by
+      apply l1.mpr
+      intro f hf
+      cases hl : lastAt (ptsOf f k ops) t with
+      | none => rfl
+      | some v =>
+        have := (hmem f v).mpr ⟨hf, hl⟩
+        rw [hC] at this; simp at this
+    rw [this]; rfl
+  | some c =>
+    obtain ⟨c1, c2⟩ := n2 c hn
+    obtain ⟨f, v⟩ := c
+    obtain ⟨hf, hl⟩ := (hmem f v).mp c1
+    cases hh : lastHit (fun f => lastAt (ptsOf f k ops) t) (fileIds ops) with
+    | none => have := (l1.mp hh) f hf; rw [hl] at this; cases this
+    | some w =>
+      obtain ⟨g, hg, hg1, hg2⟩ := l2 w hh
+      have hgc := (hmem g w).mpr ⟨hg, hg1⟩
+      have h1 : g ≤ f := c2 _ hgc
+      have h2 : ¬ g < f := by
+        intro hlt
+        have := hg2 f hf hlt
+        rw [hl] at this; cases this
+      have : g = f := by omega
+      subst this
+      rw [hl] at hg1
+      simp only [Option.some.injEq] at hg1
+      simp [hg1]
+
+
+/-! ### the whole compaction of a case -/
+
+/-- all blocks of key `k`, file after file -/
+def blocksOfKey (ops : List Op) (k : Key) : List (Pts Int) := (fileIds ops).flatMap fun f => ptsOf f k ops
+
+theorem length_flatMap_map {α β γ : Type} (g : β → γ) (h : α → List β) : ∀ (l : List α),
+    (l.flatMap fun x => (h x).map g).length = (l.flatMap h).length
+  | [] => rfl
+  | x :: xs => by simp [List.flatMap_cons, length_flatMap_map g h xs]
+
+theorem filesOK_noDel (ops : List Op) (hv : ValidFrom [] ops) (hnd : NoDel ops)
+    (hcap : ∀ k, (blocksOfKey ops k).length ≤ 20) : FilesOK (runsOf' ops) := by
+  have hch : ∀ f k, ChainOK (ptsOf f k ops) := fun f k => by
+    have := valid_chain f k ops [] hv trivial
+    simpa using this
+  refine ⟨?_, ?_, ?_⟩
+  · intro fr hfr
+    rw [runs_noDel ops hnd] at hfr
+    simp only [List.mem_map] at hfr
+    obtain ⟨f, _, rfl⟩ := hfr
+    obtain ⟨s1, s2, s3⟩ := foldBlocks_spec f ops [] List.Pairwise.nil (by simp)
+    rw [← fileBlocksL_eq] at s1 s2 s3
+    refine ⟨?_, ?_⟩
+    · rw [List.pairwise_map]
+      exact s1
+    · intro r hr
+      simp only [List.mem_map] at hr
+      obtain ⟨e, he, rfl⟩ := hr
+      have hne := s2 e he
+      refine ⟨?_, by simpa using hne⟩
+      -- the key comes from a `blk` operation
+      obtain ⟨b, hb⟩ : ∃ b, b ∈ e.2 := by
+        cases h : e.2 with
+        | nil => exact absurd h hne
+        | cons x xs => exact ⟨x, by simp⟩
+      have hin : b ∈ getK (fileBlocksL f ops) e.1 := by
+        simp only [getK, List.mem_flatMap, List.mem_filter, decide_eq_true_eq]
+        exact ⟨e, ⟨he, rfl⟩, hb⟩
+      rw [s3 e.1] at hin
+      simp only [getK, List.filter_nil, List.flatMap_nil, List.nil_append] at hin
+      exact (valid_blk_facts ops [] hv f e.1 b (mem_ptsOf.mp hin)).2
+  · intro k b hb
+    rw [blocksFor_noDel ops hnd] at hb
+    simp only [List.mem_flatMap, List.mem_map] at hb
+    obtain ⟨f, _, pts, hpts, rfl⟩ := hb
+    obtain ⟨c1, c2, c3⟩ := chain_mem_facts _ (hch f k) pts hpts
+    exact fresh_mkB c1 c2 c3
+  · intro k
+    rw [blocksFor_noDel ops hnd, length_flatMap_map]
+    exact hcap k
+
+/-- **a compaction of the case, judged by the statement checker** -/
+theorem modelCompact_ok (ops : List Op) (hv : ValidFrom [] ops) (hnd : NoDel ops)
+    (hcap : ∀ k, (blocksOfKey ops k).length ≤ 20) (fast : Bool) (size : Nat) (hs : 0 < size)
+    (hsz : ∀ f k pts, Op.blk f k pts ∈ ops → pts.length ≤ size)
+    (files : List OutFile) (h : modelCompact ops fast size = Obs.out files) :
+    judge ops false size files = none := by
+  unfold modelCompact at h
+  cases hc : compactSeq ⟨size, fast⟩ ((readers ops).map RFile.runs) with
+  | error e => rw [hc] at h; cases h
+  | ok seq =>
+    rw [hc] at h
+    simp only [Obs.out.injEq] at h
+    subst h
+    have ro := compactSeq_spec ⟨size, fast⟩ hs (runsOf' ops) (filesOK_noDel ops hv hnd hcap) seq hc
+    obtain ⟨sf1, sf2⟩ := splitFiles_spec limits (fun _ => 0) (seqLen seq) seq (by simp [seqLen])
+    apply judge_none ops false size _ sf2 (by rw [sf1]; exact ro.sorted)
+      (fun k => blocksFor (runsOf' ops) k) (fun k => restAt (blocksFor (runsOf' ops) k))
+    · intro k; rw [sf1]; exact ro.keys k
+    · intro k t
+      simp only [Bool.false_eq_true, if_false]
+      exact content_noDel ops hv hnd k t
+    · intro k b0 hb0
+      rw [blocksFor_noDel ops hnd] at hb0
+      simp only [List.mem_flatMap, List.mem_map] at hb0
+      obtain ⟨f, _, pts, hpts, rfl⟩ := hb0
+      exact hsz f k pts (mem_ptsOf.mp hpts)
 
 end Influx.Model.Compact
